@@ -84,7 +84,8 @@ type (
 		SetLocalAckChan(shardID history.ClusterShardID, ackChan chan RoutedAck)
 		// GetLocalAckChan retrieves the ack channel for a specific shard ID
 		GetLocalAckChan(shardID history.ClusterShardID) (chan RoutedAck, bool)
-		// RemoveLocalAckChan removes the ack channel for a specific shard ID only if it matches the provided channel
+		// RemoveLocalAckChan removes the ack channel for a specific shard ID, and the receiver cancel function registered
+		// with it, only if the channel matches the provided channel
 		RemoveLocalAckChan(shardID history.ClusterShardID, expectedChan chan RoutedAck)
 		// SetLocalReceiverCancelFunc registers a cancel function for a local receiver for a specific shard ID
 		SetLocalReceiverCancelFunc(shardID history.ClusterShardID, cancelFunc context.CancelFunc)
@@ -1209,13 +1210,20 @@ func (sm *shardManagerImpl) getAllLocalAckChans() map[history.ClusterShardID]cha
 	return result
 }
 
-// RemoveLocalAckChan removes the ack channel for a specific shard ID only if it matches the provided channel
+// RemoveLocalAckChan removes the ack channel for a specific shard ID only if it matches the provided channel.
+// The receiver's cancel function is registered together with its ack channel (channel first) and a terminating
+// successor removes the pair (channel last), so while the channel is still the expected one the cancel function is the
+// same receiver's: it is removed in the same critical section. Doing that in a separate step would let a successor
+// register in between and lose its cancel function.
 func (sm *shardManagerImpl) RemoveLocalAckChan(shardID history.ClusterShardID, expectedChan chan RoutedAck) {
 	sm.logger.Info("Remove local ack channel for shard", tag.NewStringTag("shardID", ClusterShardIDtoString(shardID)))
 	sm.localAckChannelsMu.Lock()
 	defer sm.localAckChannelsMu.Unlock()
 	if currentChan, exists := sm.localAckChannels[shardID]; exists && currentChan == expectedChan {
 		delete(sm.localAckChannels, shardID)
+		sm.localReceiverCancelFuncsMu.Lock()
+		delete(sm.localReceiverCancelFuncs, shardID)
+		sm.localReceiverCancelFuncsMu.Unlock()
 	} else {
 		sm.logger.Info("Skipped removing local ack channel for shard (channel mismatch or already removed)", tag.NewStringTag("shardID", ClusterShardIDtoString(shardID)))
 	}
